@@ -484,6 +484,11 @@ class GraphBuilder:
 
         model = Model(nodes_and_vars, grow=False, copy=copy)
 
+        if copy:
+            # the original nodes stay in the graph builder: detach the seed inputs
+            # that were injected for the (copied) model, so it can build again
+            Model._remove_model_seed_inputs({node.name: node for node in nodes})
+
         if not copy:
             self.nodes.clear()
             self.vars.clear()
